@@ -352,6 +352,32 @@ func (c *Case) Sub(j int64, fn func()) {
 	}()
 }
 
+// CaseAll is Case for work that every shard process must run (per-process phenomena such
+// as the first use of a type): the case is not distributed by index.
+func (r *Run) CaseAll(id string, fn func(c *Case)) {
+	i := r.idx
+	r.idx++
+	if r.Only != "" {
+		if id != r.Only {
+			return
+		}
+	} else if i < r.Resume || (i == r.Resume && r.ResumeSub < 0) {
+		return
+	}
+	r.begin(i, id)
+	c := &Case{R: r, ID: id, Index: i}
+	func() {
+		defer func() {
+			if e := recover(); e != nil {
+				st := string(debug.Stack())
+				c.Violation(PanicSig(e, st), fmt.Sprintf("panic escaped: %v\n%s", e, TrimStack(st)), nil)
+			}
+		}()
+		fn(c)
+	}()
+	r.end()
+}
+
 // Skip advances the case index by n without running anything (used when a whole block of
 // cases is disabled in a pass but indices must stay aligned between passes).
 func (r *Run) Skip(n int64) { r.idx += n }
